@@ -11,7 +11,7 @@ Mirrors (line numbers of `/repo` HEAD):
 * `flow_stats` / `to_flow_removed` (`:153-183`), `ofp_match.pack()` (`libopenflow_01.py:1186-1230`) → `flowStat`, `removedMsg`, `packPlain`
 * `FlowTable.matching_entries`, `flow_stats`, `aggregate_stats` (`:255-274`)            → `statsEntries`, `Op.flowStats`, `Op.aggStats`
 * `_remove_specific_entries`, `remove_expired_entries`, `remove_matching_entries` (`:276-311`) → `sweep`, `flowModDelete`, `addBase`
-* `check_for_overlapping_entry`, `_matches_overlap` (`:329-374`, with the proposed repair D23 — `/verif/fixes`)  → `overlapScan`, `overlapsWith`
+* `check_for_overlapping_entry`, `_matches_overlap` (`:329-374`)  → `overlapScan`, `overlapsWith`
 * `SoftwareSwitchBase._handle_FlowTableModification` (`switch.py:215-232`)              → `wantsRemoved`, `notify`
 * `_rx_flow_mod` (`:292-310`), `_flow_mod_add/_modify/_modify_strict/_delete/_delete_strict` (`:747-842`) → `flowModStep`, `flowMod*`
 * `rx_packet`, table part (`:515-526`)                                                 → `packetStep`
